@@ -66,6 +66,28 @@ type mworld struct {
 	t     *util.MerklePatriciaTrie
 	db    util.NodeDB
 	save  util.NodeDB
+	// results of GetChanges that their callers keep: summarised when they were handed out and again at the end
+	heldMu sync.Mutex
+	held   []heldChanges
+}
+
+type heldChanges struct {
+	changes []*util.NodeChange
+	deletes []util.Node
+	summary string
+}
+
+func summariseChanges(changes []*util.NodeChange, deletes []util.Node) string {
+	var cs, ds []string
+	for _, c := range changes {
+		cs = append(cs, c.New.GetHash()[:8])
+	}
+	for _, d := range deletes {
+		ds = append(ds, d.GetHash()[:8])
+	}
+	sort.Strings(cs)
+	sort.Strings(ds)
+	return fmt.Sprintf("changes=%v deletes=%v", cs, ds)
 }
 
 func (c c16) build() *mworld {
@@ -201,16 +223,11 @@ func (w *mworld) do(o mop) string {
 	case 'X':
 		// root, change set, delete set and start root must belong to one instant
 		root, changes, deletes, start := w.t.GetChanges()
-		var cs, ds []string
-		for _, c := range changes {
-			cs = append(cs, c.New.GetHash()[:8])
-		}
-		for _, d := range deletes {
-			ds = append(ds, d.GetHash()[:8])
-		}
-		sort.Strings(cs)
-		sort.Strings(ds)
-		return fmt.Sprintf("root=%x changes=%v deletes=%v start=%x", []byte(root)[:4], cs, ds, start)
+		sum := summariseChanges(changes, deletes)
+		w.heldMu.Lock()
+		w.held = append(w.held, heldChanges{changes, deletes, sum})
+		w.heldMu.Unlock()
+		return fmt.Sprintf("root=%x %s start=%x", []byte(root)[:4], sum, start)
 	}
 	return "?"
 }
@@ -224,7 +241,13 @@ func (w *mworld) final() string {
 		return nil
 	}, util.NodeTypeValueNode)
 	sort.Strings(es)
-	return fmt.Sprintf("root=%x content=%v iterr=%v missing=%d", w.t.GetRoot(), es, err, len(w.t.GetMissingNodeKeys()))
+	heldFail := ""
+	for i, h := range w.held {
+		if now := summariseChanges(h.changes, h.deletes); now != h.summary {
+			heldFail += fmt.Sprintf(" RESULT-CHANGED-AFTER-RETURN: the change set returned by GetChanges call %d was {%s} when it was returned and is {%s} now", i, h.summary, now)
+		}
+	}
+	return fmt.Sprintf("root=%x content=%v iterr=%v missing=%d%s", w.t.GetRoot(), es, err, len(w.t.GetMissingNodeKeys()), heldFail)
 }
 
 // rejectingDB is a save target whose batch write fails (a full or broken disk).
@@ -281,6 +304,10 @@ func (c c16) scenario() sched.Scenario {
 		}
 		judge := func() (string, string) {
 			observed, fin := c.render(res), w.final()
+			if i := strings.Index(fin, "RESULT-CHANGED-AFTER-RETURN"); i >= 0 {
+				// judged directly: no order of the calls explains a result that changes after it was returned
+				return observed + " | " + fin, "a result handed to its caller did not stay what it was: " + fin[i:] + "; observed results " + observed
+			}
 			// all orders consistent with program order and with real-time order (a returned before b was called)
 			var all []opRef
 			for th := range c.scripts {
@@ -358,6 +385,7 @@ func C16Scenarios() []sched.Scenario {
 			{name: "R||R-missing-node", doc: "two readers running into the same node that is absent from the store", dropNode: "0b22", scripts: [][]mop{{{'G', "0b22", ""}}, {{'G', "0b22", ""}, {'H', "", ""}}}},
 			{name: "Merge||Merge", doc: "two sibling transaction tries opened on the same root are merged concurrently: exactly one merge may succeed", scripts: [][]mop{{{'M', "0a1d", "x"}, {'G', "0a1d", ""}}, {{'M', "0a2b", "z"}, {'G', "0a2b", ""}}}},
 			{name: "W||GetChanges", doc: "writer || GetChanges (root, changes and deletes of one instant)", scripts: [][]mop{{{'I', "0a1d", "x"}, {'D', "0b22", ""}}, {{'X', "", ""}}}},
+			{name: "W||GetChanges-kept", doc: "a writer rewriting keys (the change set does not grow) || a reader that keeps the sets GetChanges returned while it asks again: what was returned stays what it was", scripts: [][]mop{{{'I', "0a1b", "x"}, {'X', "", ""}, {'I', "0a1b", "y"}}, {{'X', "", ""}, {'X', "", ""}}}},
 			{name: "W||change-count", doc: "writer || GetChangeCount", scripts: [][]mop{{{'I', "0a1d", "x"}, {'I', "0a1e", "y"}}, {{'C', "", ""}, {'C', "", ""}}}},
 			{name: "W||Save||R", doc: "writer || SaveChanges || reader", scripts: [][]mop{{{'I', "0a1d", "x"}}, {{'S', "", ""}}, {{'G', "0a1d", ""}}}},
 			// (saves that fail are exercised in the free-running pass only, see failingSaves in stress.go: the error path of
